@@ -708,6 +708,13 @@ class _ExprNorm(ast.NodeTransformer):
         # typing.cast(T, x) is x
         if f in ("cast", "typing.cast") and len(node.args) == 2 and not node.keywords:
             return node.args[1]
+        # chain.from_iterable(X) -> (y for x in X for y in x)
+        if f in ("chain.from_iterable", "itertools.chain.from_iterable") and len(node.args) == 1 and not node.keywords:
+            self._fresh[0] += 1
+            a, b = f"f{self._fresh[0]}a_", f"f{self._fresh[0]}b_"
+            return ast.copy_location(ast.GeneratorExp(elt=ast.Name(id=b, ctx=ast.Load()), generators=[
+                ast.comprehension(target=ast.Name(id=a, ctx=ast.Store()), iter=node.args[0], ifs=[], is_async=0),
+                ast.comprehension(target=ast.Name(id=b, ctx=ast.Store()), iter=ast.Name(id=a, ctx=ast.Load()), ifs=[], is_async=0)]), node)
         # any(v == E for v in X) -> E in X   (membership is `==` against each element in turn)
         if f == "any" and len(node.args) == 1 and not node.keywords and isinstance(node.args[0], (ast.GeneratorExp, ast.ListComp)):
             g = node.args[0]
@@ -813,6 +820,50 @@ class _ExprNorm(ast.NodeTransformer):
                 elts.append(e)
         node.elts = elts
         return node
+
+    _fresh = [0]
+
+    def _fuse(self, node):
+        """(f(v) for v in (g(w) for w in S if C) if D)  ->  (f(g(w)) for w in S if C if D[g(w)])   for a pure inner comprehension:
+        a pipeline of generators / lists and the fused comprehension yield the same elements in the same order"""
+        self.generic_visit(node)
+        while True:
+            g0 = node.generators[0]
+            inner = g0.iter
+            if not (isinstance(inner, (ast.GeneratorExp, ast.ListComp)) and norm.is_pure(inner, _PURE_EXT) and not g0.is_async):
+                return node
+            tnames = [n.id for n in ast.walk(g0.target) if isinstance(n, ast.Name)]
+            if isinstance(g0.target, ast.Name):
+                mapping = {g0.target.id: inner.elt}
+            elif isinstance(g0.target, ast.Tuple) and isinstance(inner.elt, ast.Tuple) and len(g0.target.elts) == len(inner.elt.elts) \
+                    and all(isinstance(t, ast.Name) for t in g0.target.elts):
+                mapping = {t.id: e for t, e in zip(g0.target.elts, inner.elt.elts)}
+            else:
+                return node
+            # inner variables get fresh names so that nothing of the outer comprehension is captured
+            ren = {}
+            for g in inner.generators:
+                for n in ast.walk(g.target):
+                    if isinstance(n, ast.Name) and n.id not in ren:
+                        self._fresh[0] += 1
+                        ren[n.id] = f"f{self._fresh[0]}_"
+            inner = norm._Rename(ren).visit(copy.deepcopy(inner))
+            if isinstance(g0.target, ast.Name):
+                mapping = {g0.target.id: inner.elt}
+            else:
+                mapping = {t.id: e for t, e in zip(g0.target.elts, inner.elt.elts)}
+            sub = norm._Subst(mapping)
+            gens = list(inner.generators)
+            gens[-1].ifs = list(gens[-1].ifs) + [sub.visit(copy.deepcopy(c)) for c in g0.ifs]
+            for g in node.generators[1:]:
+                g.iter = sub.visit(g.iter)
+                g.ifs = [sub.visit(c) for c in g.ifs]
+                gens.append(g)
+            node.generators = gens
+            for f in ("elt", "key", "value"):
+                if hasattr(node, f):
+                    setattr(node, f, sub.visit(getattr(node, f)))
+    visit_ListComp = visit_SetComp = visit_DictComp = visit_GeneratorExp = _fuse
 
     def visit_Starred(self, node):
         self.generic_visit(node)
@@ -1027,7 +1078,15 @@ class Canon:
         return set() if "*" in other else ctor - other
 
     # ---- class knowledge for match lowering
-    def _match_args(self, module):
+    def _match_args(self, module, fn=None):
+        # names imported inside the function body (`from hugr.ext import ExplicitBound`)
+        local_imports: dict[str, tuple[str, str]] = {}
+        if fn is not None:
+            for n in ast.walk(fn):
+                if isinstance(n, ast.ImportFrom) and n.module and n.level == 0:
+                    for a in n.names:
+                        local_imports[a.asname or a.name] = (n.module, a.name)
+
         def alias_of_builtin(cls_expr):
             # PortOffset = int  (possibly imported): a class pattern on it matches the subject itself
             name = u(cls_expr).split(".")[-1]
@@ -1060,6 +1119,10 @@ class Canon:
             c = None
             if r is not None and hasattr(r, "init_params"):
                 c = r
+            if c is None and isinstance(cls_expr, ast.Name) and cls_expr.id in local_imports:
+                mn, nm = local_imports[cls_expr.id]
+                if mn in self.prog.modules:
+                    c = self.prog.modules[mn].classes.get(nm)
             if c is None:
                 name = u(cls_expr).split(".")[-1]
                 cands = [k for m in self.prog.modules.values() for k in m.classes.values() if k.name == name]
@@ -1089,7 +1152,7 @@ class Canon:
         nested = {n.name: n for n in ast.walk(fn) if isinstance(n, ast.FunctionDef) and n is not fn}
 
         def prep(body):
-            body = lower_matches(body, self._match_args(module))
+            body = lower_matches(body, self._match_args(module, fn))
             return lift_walrus(lift_ifexp(body))
 
         local_types = self._local_types(real_body(fn), module, cls)
@@ -1247,7 +1310,7 @@ class Canon:
         b = [copy.deepcopy(s) for s in real_body(fn)]
         b = strip_annotations(b)
         # nested function definitions that get inlined are dropped afterwards
-        b = lower_matches(b, self._match_args(module))
+        b = lower_matches(b, self._match_args(module, fn))
         b = lift_ifexp(b)
         b = lift_walrus(b)
         inl = Inliner(self._lookup(module, cls, fn, set(inline), set(keep)))
